@@ -8,14 +8,15 @@ TECHNIQUE = 'runtime monitoring under a deterministic cooperative scheduler with
 RULE = ('2-5 timed sources (some sharing a signal name) on a started ActiveObject; at a virtual instant that coincides with a posting instant of '
         'a source in half of the runs (so canceller and timer thread are runnable together) cancel_event(id) or cancel_events(event) is called '
         'from outside or from inside a handler, with the id / signal-name object either identical to what miros returned or EQUAL BUT NOT '
-        'IDENTICAL (rebuilt by join / encode-decode / JSON round trip, as if received over a network); in 40% of the runs a further thread arms an unrelated timed source at the very instant of the cancel. Checked from the deque operation log: '
+        'IDENTICAL (rebuilt by join / encode-decode / JSON round trip, as if received over a network); in 40% of the runs a further thread arms an unrelated timed source at the very instant of the cancel; in a fifth of the runs the object (a subclass with a small QUEUE_SIZE) can track exactly one more source than it already has and TWO threads arm one each just before the cancel of the oldest source: one must be refused and every accepted source must stay cancellable. Checked from the deque operation log: '
         'no append of a cancelled source after the step at which the cancel call returned; exactly the targeted sources stop; every other '
         'source has its ideal number of postings at the horizon. distinct_nontrivial = distinct (cancel mode, inside/outside, identical or '
         'rebuilt, coincident instant, context-switch sequence) tuples')
 CASES = {'quick': 1500, 'thorough': 80000}
 BUDGET = {'quick': 50, 'thorough': 300}
 REQUIRE = {'runs': 600, 'cancel_by_id': 200, 'cancel_by_name': 200, 'cancel_from_handler': 150, 'rebuilt_argument': 200, 'cancel_coincides_with_posting': 200,
-           'timer_and_canceller_runnable_together': 50, 'source_armed_during_cancel': 200}
+           'timer_and_canceller_runnable_together': 50, 'source_armed_during_cancel': 200,
+           'runs_under_capacity_pressure': 100, 'capacity_pressure_one_of_two_refused': 80}
 ASSUME = ['instantaneous-computation time model (clock advances only at quiescence)']
 ANNOUNCE_CASES = True
 
@@ -31,13 +32,26 @@ def run_case(ctx, n):
   inside = rng.random() < 0.35
   rebuilt = rng.random() < 0.4
   target = rng.randrange(len(sources))
+  # capacity pressure (a fifth of the runs): the object can track exactly one more timed source than the main thread arms, and TWO
+  # threads arm a further source each at the instant of the cancel - one of them must be refused (C31), every accepted source must
+  # stay cancellable and the oldest one is the cancel's target
+  pressure = rng.random() < 0.2
+  if pressure:
+    target = 0
   pol = aosim.policy_for(rng, est_len=1200, fair_suffix=False)
   s = ds.Sched(seed=rng.randrange(1 << 30), max_steps=3000000, horizon=1e9, **pol)
   aosim.install(s)
   run = timersim.TimerRun()
   cancel_rec = {}
   try:
-    ao = aosim.make_ao(run.hist, instrumented=rng.random() < 0.5)
+    import miros.activeobject as AOM
+    base = None
+    if pressure:
+      class SmallCapacity(AOM.ActiveObject):
+        QUEUE_SIZE = len(sources) + 1
+      base = SmallCapacity
+      ctx.count('runs_under_capacity_pressure')
+    ao = aosim.make_ao(run.hist, instrumented=rng.random() < 0.5, base=base)
 
     def do_cancel(chart):
       if mode == 'id':
@@ -66,17 +80,18 @@ def run_case(ctx, n):
       k = rng.randint(1, 4)
       tc = run.t0[tsrc['i']] + k * tsrc['period'] if coincide else s.clock + rng.choice([0.004, 0.033, 0.777])
       # in part of the runs another thread arms an unrelated timed source at the very instant of the cancel
-      armer = None
-      if rng.random() < 0.4:
-        ysrc = {'i': len(sources), 'sig': 'TICK_Y', 'kind': rng.choice(['fifo', 'lifo']), 'period': rng.choice([0.01, 0.05, 0.1]),
-                'times': rng.choice([0, 3, 5]), 'deferred': rng.choice([True, False, None]), 'start_delay': 0.0}
-        sources.append(ysrc)
+      armers = []
+      if pressure or rng.random() < 0.4:
+        for _ in range(2 if pressure else 1):
+          ysrc = {'i': len(sources), 'sig': 'TICK_Y', 'kind': rng.choice(['fifo', 'lifo']), 'period': rng.choice([0.01, 0.05, 0.1]),
+                  'times': rng.choice([0, 3, 5]), 'deferred': rng.choice([True, False, None]), 'start_delay': 0.0}
+          sources.append(ysrc)
 
-        def arm():
-          ds.STime.sleep(max(0.0, tc - ds.S.clock))
-          timersim.start_source(ao, run, ysrc)
-        armer = ds.SThread(target=arm)
-        armer.start()
+          def arm(ysrc=ysrc):
+            ds.STime.sleep(max(0.0, tc - (0.001 if pressure else 0.0) - ds.S.clock))
+            timersim.start_source(ao, run, ysrc)
+          armers.append(ds.SThread(target=arm))
+          armers[-1].start()
         ctx.count('source_armed_during_cancel')
       ds.STime.sleep(max(0.0, tc - s.clock))
       if inside:
@@ -85,7 +100,7 @@ def run_case(ctx, n):
         do_cancel(ao)
       horizon = s.clock + rng.choice([0.0777, 0.5123, 3.0011])
       ds.STime.sleep(horizon - s.clock)
-      if armer is not None:
+      for armer in armers:
         armer.join()
     except ds.Verdict as v:
       ctx.violation('C11/' + v.kind, 'scenario ended in %s: %r' % (v.kind, v.info), {'sources': len(sources)})
@@ -100,7 +115,13 @@ def run_case(ctx, n):
     if coincide:
       ctx.count('cancel_coincides_with_posting')
     wsrc = [dict((k2, v) for k2, v in x.items() if k2 != 'event') for x in sources]
-    wit = {'sources': wsrc, 'mode': mode, 'inside_handler': inside, 'argument_rebuilt': rebuilt, 'target_source': target, 'cancel': cancel_rec, 'policy': pol}
+    wit = {'sources': wsrc, 'mode': mode, 'inside_handler': inside, 'argument_rebuilt': rebuilt, 'target_source': target, 'cancel': cancel_rec, 'policy': pol,
+           'capacity_pressure': pressure, 'refused_sources': sorted(run.raised)}
+    if pressure:
+      if len(run.raised) == 1:
+        ctx.count('capacity_pressure_one_of_two_refused')
+      else:
+        ctx.count('other_property_disagreements')      # how many are refused is C31's business
     if 'ret' not in cancel_rec:
       ctx.violation('C11/cancel-never-ran', 'the cancelling call did not complete (handler not run?)', wit)
       return
@@ -118,6 +139,10 @@ def run_case(ctx, n):
     for src in sources:
       i = src['i']
       mine = [p for p in posts if p[0] == i]
+      if i in run.raised:
+        if mine:
+          ctx.count('other_property_disagreements')    # a refused source that posts is C31's business
+        continue
       ideal = timersim.expected_instants(src, run.t0[i], now)
       if i in cancelled:
         late = [p for p in mine if p[2] > cancel_rec['ret']]
